@@ -16,7 +16,9 @@ from ..harness import Session, canon_gateway, drive, ScriptExhausted
 
 BIG = "12345678901234567890"
 PAYLOADS_FULL = ["", "abc", "1e999", "inf", "nan", "-1", "3.7", BIG, "١", " 5", "2.2.0", "junk", "é", "\x00", "1;2", "0x10", "1_0", "-0", "1e3", "٣٫٥"]
-PAYLOADS_QUICK = ["", "abc", "inf", "nan", "-1", "3.7", "junk", "é", "2.2.0"]
+LONGP = "y" * 300
+PAYLOADS_FULL += [LONGP, "\udc80", "9" * 400, "1" + "0" * 5000]
+PAYLOADS_QUICK = ["", "abc", "inf", "nan", "-1", "3.7", "junk", "é", "2.2.0", LONGP, "\udc80"]
 PROBE = [(9, 255, 0, 0, 17, "2.0"), (9, 3, 0, 0, 3, "d"), (9, 3, 1, 0, 2, "on")]
 
 
@@ -185,6 +187,99 @@ def capacity_case(j) -> list:
     return viols
 
 
+def timeout_case(kind: str) -> list:
+    """The application waits for the next message with a timeout (asyncio.wait_for): the wait is cancelled while
+    nothing has arrived. The wait must end as a cancellation (not as some other exception) and the gateway stays
+    usable: the next well-formed line is processed normally. Per transport kind."""
+    from unittest.mock import patch as _patch
+
+    from aiomysensors.transport.mqtt import MQTTClient
+    from aiomysensors.transport.serial import SerialTransport
+
+    from ..harness import AsyncScriptTransport
+    from ..mqttfake import FakeClient
+    from ..vloop import VLoop
+
+    viols = []
+
+    def bad(k, what):
+        viols.append((f"C03|timeout-{k}|{kind}", f"[{kind}] {what}", {"timeout_kind": kind}))
+
+    loop = VLoop()
+    loop.enter()
+    patches = []
+    try:
+        feed = None
+        if kind == "script":
+            t = AsyncScriptTransport(loop)
+            t.sync = False
+            feed = lambda line: t.deliver(line + "\n")  # noqa: E731
+        elif kind in ("tcp", "serial"):
+            reader = asyncio.StreamReader(loop=loop)
+
+            async def factory(*a, **kw):
+                return reader, FakeWriter()
+
+            p = _patch("aiomysensors.transport.tcp.asyncio.open_connection" if kind == "tcp" else "aiomysensors.transport.serial.open_serial_connection", factory)
+            p.start()
+            patches.append(p)
+            t = TCPTransport("h") if kind == "tcp" else SerialTransport("p")
+            feed = lambda line: reader.feed_data(line.encode() + b"\n")  # noqa: E731
+        else:
+            p = _patch("aiomysensors.transport.mqtt.AsyncioClient", FakeClient)
+            p.start()
+            patches.append(p)
+            FakeClient.instances.clear()
+            FakeClient.plan = {}
+            FakeClient.suspend = set()
+            t = MQTTClient("b", 1883, in_prefix="i", out_prefix="o")
+
+            def feed(line):
+                f = line.split(";", 5)
+                FakeClient.instances[-1].deliver("i/" + "/".join(f[:5]), f[5].encode())
+
+        ct = loop.create_task(t.connect())
+        loop.run_ready()
+        if not ct.done() or ct.exception() is not None:
+            raise core.HarnessError(f"connect of the {kind} transport failed in the harness: {ct!r}")
+        gw = Gateway(t)
+        gw.protocol_version = "2.2"
+        for rnd in range(2):
+            agen = gw.listen()
+            step = loop.create_task(agen.__anext__())
+            loop.run_ready()
+            if step.done():
+                bad("premature", f"a wait on a silent transport ended by itself: {step!r}")
+                return viols
+            step.cancel()
+            loop.run_ready()
+            if not step.done():
+                bad("stuck", "the cancelled wait never finished")
+                return viols
+            if not step.cancelled():
+                exc = step.exception()
+                bad(f"foreign-exception:{type(exc).__name__}", f"round {rnd}: a wait for the next message that times out on a silent transport ended with {type(exc).__name__}: {exc} instead of the cancellation")
+                return viols
+            for f in PROBE:
+                agen = gw.listen()
+                step = loop.create_task(agen.__anext__())
+                loop.run_ready()
+                feed(R.enc(*f).rstrip("\n"))
+                loop.run_ready()
+                ok = step.done() and not step.cancelled() and step.exception() is None
+                if not ok or (step.result().node_id, step.result().payload) != (f[0], f[5]):
+                    bad("unusable-after", f"round {rnd}: after the timed-out wait the well-formed line {R.enc(*f)!r} gave {step!r}")
+                    if not step.done():
+                        step.cancel()
+                        loop.run_ready()
+                    return viols
+    finally:
+        for p in patches:
+            p.stop()
+        loop.shutdown()
+    return viols
+
+
 def job(j):
     version, hist, lines = j
     viols = []
@@ -222,7 +317,9 @@ def check_bytes(data: bytes) -> list:
     global _LOOP
     viols = []
     if _LOOP is None:
-        _LOOP = asyncio.new_event_loop()
+        from ..harness import drive_loop
+
+        _LOOP = drive_loop()
 
     def bad(k, what):
         viols.append((f"C03|bytes-{k}", f"byte stream {data!r}: {what}", {"bytes": data.hex()}))
@@ -295,7 +392,9 @@ def check_byte_history(version, data: bytes) -> list:
     global _LOOP
     viols = []
     if _LOOP is None:
-        _LOOP = asyncio.new_event_loop()
+        from ..harness import drive_loop
+
+        _LOOP = drive_loop()
 
     def bad(k, what):
         viols.append((f"C03|bytes-history-{k}", f"[version {version}] byte stream {data!r}: {what}", {"bytes_history": data.hex(), "version": version}))
@@ -378,6 +477,7 @@ def run(ctx: core.Ctx) -> core.Report:
     bres += core.pmap(job_byte_histories, hjobs, ctx.workers, chunksize=1)
     cjobs = [(v, how, lo, hi) for v in versions for how, lo, hi in (("idreq", 1, 254), ("idreq", 1, 253), ("present", 1, 254), ("present", 0, 254), ("present", 0, 253), ("present", 2, 254), ("present", 0, 255))]
     cres = core.pmap(capacity_case, cjobs, ctx.workers, chunksize=1)
+    cres += core.pmap(timeout_case, ["script", "tcp", "serial", "mqtt"], ctx.workers, chunksize=1)
     total = sum(r[0] for r in res)
     btotal = sum(r[0] for r in bres)
     viols = [core.Violation(k, w, rep) for r in res + bres for k, w, rep in r[1]]
@@ -390,7 +490,7 @@ def run(ctx: core.Ctx) -> core.Report:
         "hostile_lines": len(lines),
         "byte_streams": btotal,
         "capacity_histories": len(cjobs),
-        "rule": "controller states = all distinct states reachable in <= 2/3 set-up events (BFS, canonical form) per version incl. unknown; in every state every line of the hostile alphabet is delivered to a real Gateway.listen step, followed (for presentations and rejected lines) by well-formed traffic about the same node incl. every internal type, and by a 3-line usability probe; registries filled to and next to capacity (by id requests / presentations, with and without node 0) x id requests and neighbouring lines; byte level: every byte string up to length L over 6 byte values through real StreamReader -> TCPTransport.read -> Gateway.listen; plus multi-line byte histories with 9 hostile byte payloads in 7 stored/echoed slots followed by lines that echo them (req, config, wake, id request) and the probe, per version",
+        "rule": "controller states = all distinct states reachable in <= 2/3 set-up events (BFS, canonical form) per version incl. unknown; in every state every line of the hostile alphabet is delivered to a real Gateway.listen step, followed (for presentations and rejected lines) by well-formed traffic about the same node incl. every internal type, and by a 3-line usability probe; registries filled to and next to capacity (by id requests / presentations, with and without node 0) x id requests and neighbouring lines; a wait for the next message cancelled (timed out) on a silent script / TCP / serial / MQTT transport, twice, each followed by the probe; byte level: every byte string up to length L over 6 byte values through real StreamReader -> TCPTransport.read -> Gateway.listen; plus multi-line byte histories with 9 hostile byte payloads in 7 stored/echoed slots followed by lines that echo them (req, config, wake, id request) and the probe, per version",
         "bounds": {"versions": versions, "setup_depth": 3 if ctx.quick else 4, "byte_len": L},
         "samples": sample_states[:2] + [{"line": lines[ctx.seed % len(lines)]}, {"bytes": streams[-4].hex()}],
     }
@@ -403,7 +503,9 @@ def run(ctx: core.Ctx) -> core.Report:
 
 
 def replay(data: dict) -> dict:
-    if "capacity" in data:
+    if "timeout_kind" in data:
+        v = timeout_case(data["timeout_kind"])
+    elif "capacity" in data:
         v = capacity_case(tuple(data["capacity"]))
     elif "bytes_history" in data:
         v = check_byte_history(data["version"], bytes.fromhex(data["bytes_history"]))
